@@ -286,9 +286,9 @@ func genC06(r *rand.Rand, tier string, idx int) []string {
 func genC06Long(g *c06gen, variant int) []string {
 	r := g.r
 	k := g.keys[0]
-	n := []int{1999, 2000, 2001, 2002, 2003, 2100}[r.Intn(6)]
+	n := scMaxDepth + []int{-1, 0, 1, 2, 3, 100}[r.Intn(6)]
 	if g.thorough && r.Intn(4) == 0 {
-		n = []int{2500, 4100}[r.Intn(2)] // the link cache (capacity 2000) evicts hundreds / thousands of links
+		n = scMaxDepth + []int{500, 2100}[r.Intn(2)] // the link cache (capacity maxHisDepth) evicts hundreds / thousands of links
 	}
 	g.emit("blk r0 r0 -")
 	if variant != 2 {
@@ -357,7 +357,7 @@ func genC06Cycle(g *c06gen) []string {
 func genC06Capacity(g *c06gen) []string {
 	r := g.r
 	k := g.keys[0]
-	n := 190 + r.Intn(25)
+	n := scCapPerKey - 10 + r.Intn(25)
 	g.emit("blk a a -")
 	g.emit("bset a %s %s", k, g.val())
 	g.emit("bcommit a")
